@@ -331,3 +331,13 @@ Definition receipts_case_ok (H : bytes -> bytes)
   | None => true
   end &&
   bytes_eqb (receipts_root H v2 bloom rs) root.
+
+(** A store decoder on arbitrary bytes: [Some (r, rest)] = Go returned r and rest, [None] = Go
+    panicked (index / slice out of range) or found an absurd event count. *)
+Definition decode_raw_ok (c : bool * bytes * option (receipt * bytes)) : bool :=
+  let '(v2, data, obs) := c in
+  match unmarshal_store v2 data, obs with
+  | Some (r, rest), Some (r', rest') => receipt_eqb r r' && bytes_eqb rest rest'
+  | None, None => true
+  | _, _ => false
+  end.
